@@ -410,10 +410,10 @@ def shards(tier, seed):
     if tier == "quick":
         nc = len(POOLS["quick"])
         for i, sk in enumerate(SKELETONS):
-            out.append(dict(name=f"sk{i:02d}", fn="h_rt", engine="direct", budget=240, query_timeout=60,
-                            kwargs=dict(sk=sk, k=2, pool="quick", rows=_rows(ns, ni, nc, 7 if i in (11, 12) else 12))))
+            out.append(dict(name=f"sk{i:02d}", fn="h_rt", engine="direct", budget=600, query_timeout=60,
+                            kwargs=dict(sk=sk, k=2, pool="quick", rows=_rows(ns, ni, nc, 5 if i in (11, 12) else 12))))
         for v in range(4):
-            out.append(dict(name=f"temporal{v}", fn="h_temporal", engine="direct", budget=240, query_timeout=60,
+            out.append(dict(name=f"temporal{v}", fn="h_temporal", engine="direct", budget=600, query_timeout=60,
                             kwargs=dict(k=2, pool="quick", variants=[v], rows=[[(2 * i + v) % ns, (3 * i + v) % nc] for i in range(5)])))
         out.append(dict(name="names-inner", fn="h_rt", engine="direct", budget=60,
                         kwargs=dict(sk=SKELETONS[1], k=2, pool="quick", rows=[[0, 0, 0]], schemes=["isym"])))
